@@ -66,6 +66,8 @@ class FnSpec:
         self.pub = True
         self.split = None
         self.imported = None   # name of the unit that proves this function (when pulled in by @use)
+        self.optional = False  # @optional: the function need not exist in /repo (a possible override of a trait default)
+        self.unless = None     # @unless PATH: skip this entry when the function PATH exists in /repo (trait default vs override)
 
 
 class Unit:
@@ -187,6 +189,10 @@ def parse_unit(path):
             cur.substs.append((a, b))
         elif d == "@nobody":
             cur.nobody = True
+        elif d == "@optional":
+            cur.optional = True
+        elif d == "@unless":
+            cur.unless = arg
         elif d == "@split":
             expr, vs = arg.split(":", 1)
             cur.split = (expr.strip(), vs.split())
@@ -399,6 +405,19 @@ def find_anchor(btoks, anchor):
         if texts[s:s + len(want)] == want:
             hits.append((sig_idx[s], sig_idx[s + len(want) - 1]))
     return hits
+
+
+def fn_exists(u, path):
+    """does /repo (still) have the function `path`?  (0 hits -> False; any other lookup problem is raised)"""
+    alias, hdr, name = split_fn_path(path)
+    src = Source.get(u.files[alias])
+    try:
+        src.find_fn(hdr, name)
+        return True
+    except Undecided as e:
+        if str(e).endswith("found 0"):
+            return False
+        raise
 
 
 def build_fn(u, fs, log, probe=False):
@@ -643,6 +662,12 @@ def assemble(unit_path, probe=False, no_hints=False, extra_requires=None, extra_
             parts.append(build_const(u, e[1], log))
         elif e[0] == "fn":
             fs = e[1]
+            if fs.optional and not fn_exists(u, fs.path):
+                log.append({"rule": "optional-absent", "fn": fs.path, "note": "no such function in /repo: entry skipped (the contract waits for an override)"})
+                continue
+            if fs.unless and fn_exists(u, fs.unless):
+                log.append({"rule": "unless-present", "fn": fs.path, "note": "skipped: %s exists and is verified instead" % fs.unless})
+                continue
             if no_hints:
                 fs.hints = []
             if extra_requires and fs.path in extra_requires:
